@@ -19,6 +19,7 @@ from pyvc.core import ctx
 from pyvc.values import SInt, zbool, zint
 from pyvc.instrument import instrument
 from pyvc import floats as F
+from pyvc import sstr as S
 from pyvc.util import real_module
 from props.C14 import ag_sub
 
@@ -178,6 +179,75 @@ def unit_best(args):
     return res
 
 
+SPELL_SHAPES = [(i, f, suf) for suf in ('K', 'M') for i in (1, 2, 3) for f in (0, 1, 2)]
+
+
+def spell_exact(text):
+    """exact metres (a Fraction) of a road spelling N[.dd]K / N[.dd]M: kilometres x 1000, miles x 1609 (the library's mile)"""
+    from fractions import Fraction
+    return Fraction(text[:-1]) * (1000 if text[-1] == 'K' else 1609)
+
+
+def unit_spell(args):
+    """get_distance on the road spellings with symbolic digits: the whole metres of the spelled distance, at most one metre short
+    (int() of a binary product may truncate just below an integer): x - 2 < r <= x.  With this contract the clauses proved for
+    every whole-metre distance carry over to every spelling (calculate_factor / world_best read the code through get_distance)."""
+    ni, nf, suf = args
+    from pyvc.shapepat import ShapePat
+    from specs import decimal_text as DT
+    u = real_module('athlib.utils')
+    cm = real_module('athlib.codes')
+    gd = instrument(u.get_distance, shadows={'PAT_RELAYS': ShapePat(cm.PAT_RELAYS), 'PAT_LEADING_FLOAT': ShapePat(cm.PAT_LEADING_FLOAT),
+                                             'PAT_LEADING_DIGITS': ShapePat(cm.PAT_LEADING_DIGITS)})
+    classes = [S.DIGITS] * ni + ((['.'] + [S.DIGITS] * nf) if nf else []) + [suf]
+
+    def run():
+        s = S.SStr.fresh('s', classes)
+        c = ctx()
+        c.extra = s
+        c.nonrobust_int = 'choose'
+        c.called = True
+        return gd.fn(s)
+
+    def post(p, c):
+        if p.outcome == 'exc':
+            c.oblige('get_distance/road-spelling-is-measured', False, 'raises', meta=dict(exc=type(p.value).__name__))
+            return
+        r = p.value
+        if isinstance(r, bool) or not isinstance(r, (int, SInt)):
+            c.oblige('get_distance/road-spelling-is-measured', False, 'post', meta=dict(result=repr(r)[:60]))
+            return
+        cells = list(S.cells_of(c.extra))
+        v = DT.digits_value(cells[:ni]) * (10 ** nf) + (DT.digits_value(cells[ni + 1:ni + 1 + nf]) if nf else 0)        # value * 10^nf
+        scale = 1000 if suf == 'K' else 1609
+        rt = r.t if isinstance(r, SInt) else z3.IntVal(r)
+        den = 10 ** nf
+        c.oblige('get_distance/road-spelling-is-its-whole-metres', z3.And(rt * den <= scale * v, rt * den > scale * v - 2 * den), 'post')
+
+    res = U.verify('get_distance[%s]' % ''.join(x if isinstance(x, str) else 'd' for x in classes), run, post, timeout_ms=20000)
+    for x in res['results']:
+        x['ctx'] = dict(fn='spell', classes=[y if isinstance(y, str) else 'd' for y in classes], year=None, g=None, age=None)
+    res['fns'] = [gd.describe()]
+    return res
+
+
+def conc_spell(r):
+    cx = r['ctx']
+    m = r.get('model') or {}
+    for mm in [m] + list(r.get('alt_models') or []):
+        t = ''.join(c if c != 'd' else chr(int(mm.get('s_%d' % i, 53))) for i, c in enumerate(cx['classes']))
+        x = spell_exact(t)
+        try:
+            got = real_module('athlib.utils').get_distance(t)
+            bad = not (isinstance(got, int) and not isinstance(got, bool) and x - 2 < got <= x)
+            obs = got
+        except Exception as e:
+            bad, obs = True, 'raises %s' % type(e).__name__
+        if bad:
+            break
+    return dict(call='get_distance(%r)' % t, observed=obs, required='whole metres of %s m (at most one short)' % x, input=[None, None, None, t, 'spell']), bad
+
+
 def spec_check(year, g, age, d, fn, grader=None):
     """concrete clause check on the real code for a whole-metre distance (bare-number code)"""
     real = grader or _ag().AgeGrader(year)
@@ -205,6 +275,8 @@ def spec_check(year, g, age, d, fn, grader=None):
 
 def conc(r):
     cx = r['ctx']
+    if cx.get('fn') == 'spell':
+        return conc_spell(r)
     m = r.get('model') or {}
     d = int(m.get('d', DMIN))
     cands = [d] + ([int(m['d2'])] if 'd2' in m else [])
@@ -260,8 +332,12 @@ def ground_chunk(args):
             try:
                 f = real.calculate_factor(g, 50, code)
                 b = real.world_best(g, code)
+                x = int(spell_exact(code))
+                same = [(real.calculate_factor(g, 50, str(dd)), real.world_best(g, str(dd))) for dd in (x, x - 1)]
                 if not (f > 0 and b > 0):
                     bad.append((code, 50, 'spelling', (f, b)))
+                elif (f, b) not in same:
+                    bad.append((code, 50, 'spelling', 'factor/best %r differ from those of the same distance in metres %r' % ((f, b), same[0])))
             except Exception as e:
                 bad.append((code, 50, 'spelling', 'raises %s' % type(e).__name__))
     return n, bad[:5]
@@ -298,7 +374,9 @@ def cross_chunk(args):
 def _work(job):
     if job[0] == 'x':
         return ('cross', job[1], cross_chunk(job[1]))
-    if job[0] == 'f':
+    if job[0] == 's':
+        r = unit_spell(job[1])
+    elif job[0] == 'f':
         r = unit_factor(job[1])
     elif job[0] == 'b':
         r = unit_best(job[1])
@@ -315,11 +393,21 @@ def replay(rep):
         b1, b2 = real.world_best(inp[1], str(inp[3])), real.world_best(inp[1], str(inp[5]))
         bad = b2 < b1 - 1e-9
         print('replay: world_best %r -> %r, %r -> %r' % (inp[3], b1, inp[5], b2))
+    elif inp[4] == 'spell':
+        x = spell_exact(inp[3])
+        try:
+            got = real_module('athlib.utils').get_distance(inp[3])
+            bad = not (isinstance(got, int) and x - 2 < got <= x)
+        except Exception as e:
+            got, bad = 'raises %s' % type(e).__name__, True
+        print('replay: get_distance(%r) -> %r, exact %s m' % (inp[3], got, x))
     elif inp[4] == 'spelling':
         real = _ag().AgeGrader(inp[0])
         try:
             f, b = real.calculate_factor(inp[1], 50, inp[3]), real.world_best(inp[1], inp[3])
-            bad = not (f > 0 and b > 0)
+            x = int(spell_exact(inp[3]))
+            same = [(real.calculate_factor(inp[1], 50, str(dd)), real.world_best(inp[1], str(dd))) for dd in (x, x - 1)]
+            bad = not (f > 0 and b > 0 and (f, b) in same)
         except Exception as e:
             f, bad = 'raises %s' % type(e).__name__, True
         print('replay: %r -> %r' % (inp[3], f))
@@ -348,6 +436,7 @@ def main(tier, seed):
             J.append(('b', (year, g)))
             J.append(('g', (year, g, seed)))
     J.append(('x', (seed,)))
+    J += [('s', sh) for sh in SPELL_SHAPES]
     results = report.pool_map(_work, J)
     gn = 0
     for res in results:
